@@ -119,6 +119,17 @@ def run(F, rep, tier):
     entry_agreement(F, rep)
     C11.persistence_rule(F, G, rep)
     compression_rule(F, rep)
+    # clause 4: the .slp side of the trip (C01's core clauses, run here too so that a break on that side is reported under C02 as well)
+    import emission
+    from props import C04
+    M1 = model.Model(F, rep, want=("with_capacity", "push_null", "read_push", "write", "size", "from"))
+    model.rule_L1(rep, M1)
+    model.rule_L2(rep, M1)
+    model.rule_L7(rep, M1)
+    model.rule_exact(rep, M1)
+    model.rule_L3(rep, M1, sibs=("from",))
+    emission.rule_emission(F, rep, M1)
+    C04.bracketing_rule(F, G, rep, M1)
     # absent metadata stays absent through .slpp (null -> None, object -> Some(map), slot takes the Option unchanged)
     from props import C16
     C16.absence_rule(F, rep)
